@@ -15,8 +15,10 @@ import (
 	"crypto/sha256"
 	"crypto/sha512"
 	stdx509 "crypto/x509"
+	"encoding/hex"
 	"encoding/json"
 	"fmt"
+	"strings"
 	"unicode/utf16"
 
 	"golang.org/x/crypto/cryptobyte"
@@ -98,8 +100,18 @@ func genKey(kt string) crypto.Signer {
 			panic(err)
 		}
 		return k
-	case "rsa2048":
-		k, err := rsa.GenerateKey(rand.Reader, 2048)
+	case "rsa2048", "rsa3072":
+		bits := 2048
+		if kt == "rsa3072" {
+			bits = 3072
+		}
+		k, err := rsa.GenerateKey(rand.Reader, bits)
+		if err != nil {
+			panic(err)
+		}
+		return k
+	case "p521":
+		k, err := ecdsa.GenerateKey(elliptic.P521(), rand.Reader)
 		if err != nil {
 			panic(err)
 		}
@@ -122,10 +134,30 @@ func NewKeys() *Keys {
 			k.byName[role+"/"+kt] = genKey(kt)
 		}
 	}
-	k.byName["LOG1"] = genKey("p256")
-	k.byName["LOG2"] = genKey("rsa2048")
+	for name, l := range logTable {
+		k.byName[name] = genKey(l.Key)
+	}
 	k.byName["LOGX"] = genKey("p256")
 	return k
+}
+
+// LogInfo is a log of MCPrecert.tla (LogTable): key type, hash function of its signatures, RFC 6962 2.1.4 compliance.
+type LogInfo struct {
+	Name      string `json:"name"`
+	Scheme    string `json:"scheme"`
+	Key       string `json:"key"`
+	Hash      string `json:"hash"`
+	Compliant bool   `json:"compliant"`
+}
+
+// the harness' own copy of the log table (cross-checked against the specification's when the driver hands it over)
+var logTable = map[string]LogInfo{
+	"LOG1": {"LOG1", "ecdsa", "p256", "sha256", true},
+	"LOG2": {"LOG2", "rsa", "rsa2048", "sha256", true},
+	"LOG3": {"LOG3", "ecdsa", "p384", "sha384", false},
+	"LOG4": {"LOG4", "ecdsa", "p256", "sha512", true},
+	"LOG5": {"LOG5", "rsa", "rsa3072", "sha384", true},
+	"LOG6": {"LOG6", "ecdsa", "p521", "sha256", false},
 }
 
 // Get returns the key of a role and type.
@@ -159,9 +191,10 @@ func must(b []byte, err error) []byte {
 }
 
 func oidBytes(arcs ...uint64) []byte {
-	// content octets of an OBJECT IDENTIFIER
-	out := []byte{byte(arcs[0]*40 + arcs[1])}
-	for _, a := range arcs[2:] {
+	// content octets of an OBJECT IDENTIFIER (X.690 8.19: the first two arcs share one subidentifier, 40*a + b)
+	var out []byte
+	subs := append([]uint64{arcs[0]*40 + arcs[1]}, arcs[2:]...)
+	for _, a := range subs {
 		var tmp []byte
 		tmp = append(tmp, byte(a&0x7f))
 		for a >>= 7; a > 0; a >>= 7 {
@@ -256,25 +289,111 @@ func Certificate(tbs []byte, signerType string, signer crypto.Signer) []byte {
 	})
 }
 
+// serialHex: contents octets of the serialNumber INTEGER per tag (the harness' own table; the specification derives
+// the same octets from the VALUES with IntOctets and the driver hands its table over for comparison, CheckDERTable).
+var serialHex = map[string]string{
+	"small": "01e240", "other": "01e241", "zero": "00",
+	"p127": "7f", "p128": "0080", "p255": "00ff", "p256": "0100", "p32768": "008000",
+	"long20": "7f" + strings.Repeat("a5", 19), "max20": "7f" + strings.Repeat("ff", 19),
+	"long21": "0080" + strings.Repeat("5a", 19),
+	"m1": "ff", "m127": "81", "m128": "80", "neg": "ff7f", "m255": "ff01", "m256": "ff00",
+	"m32768": "8000", "m32769": "ff7fff",
+	"min20": "80" + strings.Repeat("00", 19), "min20p1": "80" + strings.Repeat("00", 18) + "01",
+	"neg21": "ff7f" + strings.Repeat("ff", 19),
+}
+
 func serialDER(tag string) []byte {
-	var content []byte
-	switch tag {
-	case "small":
-		content = []byte{0x01, 0xe2, 0x40}
-	case "zero":
-		content = []byte{0x00}
-	case "neg":
-		content = []byte{0xff, 0x7f} // -129
-	case "long20":
-		content = append([]byte{0x7f}, repeat(0xa5, 19)...)
-	case "long21":
-		content = append([]byte{0x00, 0x80}, repeat(0x5a, 19)...)
-	case "other":
-		content = []byte{0x01, 0xe2, 0x41}
-	default:
+	h, ok := serialHex[tag]
+	if !ok {
 		panic("serial " + tag)
 	}
+	content, err := hex.DecodeString(h)
+	if err != nil {
+		panic(err)
+	}
 	return tlv(cbasn1.INTEGER, content)
+}
+
+// the unknown extensions' materializations (MCPrecert.tla UArc / ULen)
+var (
+	uArc = map[string]uint64{"a0": 0, "a127": 127, "a128": 128, "a16383": 16383, "a16384": 16384, "a2097151": 2097151,
+		"a2097152": 2097152, "a268435455": 268435455, "a268435456": 268435456, "amax": 2147483647}
+	uLen = map[string]int{"l0": 0, "l1": 1, "l127": 127, "l128": 128, "l255": 255, "l256": 256, "l65535": 65535, "l65536": 65536}
+)
+
+// DERTable is the table exported by MCPrecert.tla (record "DER").
+type DERTable struct {
+	Serials map[string][]int `json:"serials"`
+	Lens    map[string]struct {
+		N      int   `json:"n"`
+		Octets []int `json:"octets"`
+	} `json:"lens"`
+	Arcs map[string]struct {
+		N      uint64 `json:"n"`
+		Octets []int  `json:"octets"`
+	} `json:"arcs"`
+	Logs map[string]LogInfo `json:"logs"`
+}
+
+func octets(xs []int) []byte {
+	out := make([]byte, len(xs))
+	for i, x := range xs {
+		if x < 0 || x > 255 {
+			panic("octet out of range")
+		}
+		out[i] = byte(x)
+	}
+	return out
+}
+
+// CheckDERTable compares the specification's DER primitives with the harness' own materialization: the serial
+// contents octets (IntOctets of the values), the length octets and the subidentifier octets as cryptobyte / oidBytes
+// produce them.  Any difference is an error of the harness or of the specification, never of the code under test.
+func CheckDERTable(t *DERTable) error {
+	if len(t.Serials) != len(serialHex) {
+		return fmt.Errorf("specification has %d serial numbers, harness %d", len(t.Serials), len(serialHex))
+	}
+	for name, o := range t.Serials {
+		if hex.EncodeToString(octets(o)) != serialHex[name] {
+			return fmt.Errorf("serial %s: specification %x, harness %s", name, octets(o), serialHex[name])
+		}
+	}
+	if len(t.Lens) != len(uLen) {
+		return fmt.Errorf("specification has %d lengths, harness %d", len(t.Lens), len(uLen))
+	}
+	for name, l := range t.Lens {
+		if n, ok := uLen[name]; !ok || n != l.N {
+			return fmt.Errorf("length %s: specification %d, harness %d", name, l.N, n)
+		}
+		el := tlv(cbasn1.OCTET_STRING, make([]byte, l.N))
+		want := append([]byte{0x04}, octets(l.Octets)...)
+		if len(el) != len(want)+l.N || string(el[:len(want)]) != string(want) {
+			return fmt.Errorf("length %d: specification %x, cryptobyte %x", l.N, want, el[:len(el)-l.N])
+		}
+	}
+	for name, a := range t.Arcs {
+		if n, ok := uArc[name]; ok && n != a.N {
+			return fmt.Errorf("arc %s: specification %d, harness %d", name, a.N, n)
+		}
+		got := oidBytes(1, 3, a.N)[1:]
+		if string(got) != string(octets(a.Octets)) {
+			return fmt.Errorf("arc %d: specification %x, harness %x", a.N, octets(a.Octets), got)
+		}
+	}
+	for name := range uArc {
+		if _, ok := t.Arcs[name]; !ok {
+			return fmt.Errorf("arc %s is not in the specification", name)
+		}
+	}
+	if len(t.Logs) != len(logTable) {
+		return fmt.Errorf("specification has %d logs, harness %d", len(t.Logs), len(logTable))
+	}
+	for name, l := range t.Logs {
+		if logTable[name] != l {
+			return fmt.Errorf("log %s: specification %+v, harness %+v", name, l, logTable[name])
+		}
+	}
+	return nil
 }
 
 func repeat(x byte, n int) []byte {
@@ -388,6 +507,20 @@ var keyIDs = map[string][]byte{"k1": repeat(0x11, 20), "k2": append(repeat(0x22,
 type Mat struct {
 	Keys    *Keys
 	SCTList []byte
+	UExt    string // materialization of the unknown extensions U1 / U2 ("" = "std")
+}
+
+// derOfLen is a byte string of exactly n octets; a DER element (OCTET STRING) where one of that size exists.
+func derOfLen(n int, fill byte) []byte {
+	if n < 2 {
+		return repeat(fill, n)
+	}
+	for body := n - 2; body >= 0 && body >= n-6; body-- {
+		if el := tlv(cbasn1.OCTET_STRING, repeat(fill, body)); len(el) == n {
+			return el
+		}
+	}
+	return repeat(fill, n) // no element has this size (e.g. 130: 04 7f.. is 129, 04 81 80.. is 131)
 }
 
 var dummyLists = map[string][]byte{}
@@ -479,8 +612,17 @@ func (m *Mat) extValue(e Ext) (oid, val []byte) {
 		}
 		return oidEKU, seq(func(b *cryptobyte.Builder) { addOID(b, o) })
 	case "U1":
-		return oidU1, tlv(cbasn1.UTF8String, []byte(fmt.Sprintf("unknown extension one, instance %d", n)))
+		oid := oidU1
+		if a, ok := uArc[m.UExt]; ok {
+			oid = oidBytes(1, 3, 6, 1, 4, 1, 99999, 1, a)
+		} else if m.UExt == "joint" {
+			oid = oidBytes(2, 999, 3)
+		}
+		return oid, tlv(cbasn1.UTF8String, []byte(fmt.Sprintf("unknown extension one, instance %d", n)))
 	case "U2": // long-form lengths (>= 128 and >= 256 bytes)
+		if l, ok := uLen[m.UExt]; ok {
+			return oidU2, derOfLen(l, byte(0xa0+n))
+		}
 		return oidU2, tlv(cbasn1.OCTET_STRING, repeat(byte(0xa0+n), 100+100*n))
 	}
 	panic("extension id " + e.ID)
@@ -530,4 +672,108 @@ func (m *Mat) tbsBytes(t *TBS, spki []byte) []byte {
 			})
 		}
 	})
+}
+
+// ---------------------------------------------------------------- log signatures
+
+var hashCodes = map[string]byte{"sha256": 4, "sha384": 5, "sha512": 6} // RFC 5246 7.4.1.4.1
+
+func digestOf(hash string, msg []byte) ([]byte, crypto.Hash) {
+	switch hash {
+	case "sha256":
+		d := sha256.Sum256(msg)
+		return d[:], crypto.SHA256
+	case "sha384":
+		d := sha512.Sum384(msg)
+		return d[:], crypto.SHA384
+	case "sha512":
+		d := sha512.Sum512(msg)
+		return d[:], crypto.SHA512
+	}
+	panic("hash " + hash)
+}
+
+// signLog is the log's signature value over msg (std crypto only): ECDSA -> DER Ecdsa-Sig-Value, RSA -> PKCS#1 v1.5.
+func signLog(key crypto.Signer, hash string, msg []byte) (sigCode byte, value []byte) {
+	d, h := digestOf(hash, msg)
+	switch k := key.(type) {
+	case *ecdsa.PrivateKey:
+		return 3, must(ecdsa.SignASN1(rand.Reader, k, d))
+	case *rsa.PrivateKey:
+		return 1, must(rsa.SignPKCS1v15(rand.Reader, k, h, d))
+	}
+	panic(fmt.Sprintf("signLog %T", key))
+}
+
+// stdVerifies tells whether std crypto accepts the exact value (the harness' own check of what it signed).
+func stdVerifies(pub crypto.PublicKey, hash string, msg, value []byte) bool {
+	d, h := digestOf(hash, msg)
+	switch k := pub.(type) {
+	case *ecdsa.PublicKey:
+		return ecdsa.VerifyASN1(k, d, value)
+	case *rsa.PublicKey:
+		return rsa.VerifyPKCS1v15(k, h, d, value) == nil
+	}
+	return false
+}
+
+// nonMinimalLen is a length in a form DER forbids: the long form where the short one would do, or a leading zero.
+func nonMinimalLen(n int) []byte {
+	if n < 128 {
+		return []byte{0x81, byte(n)}
+	}
+	if n < 256 {
+		return []byte{0x82, 0x00, byte(n)}
+	}
+	return []byte{0x83, 0x00, byte(n >> 8), byte(n)}
+}
+
+// sigForm presents a signature value in one of the forms of Precert.tla (SigForms).  key / hash are the log's, for the
+// form that appends a second genuine signature.
+func sigForm(form, scheme string, value []byte, key crypto.Signer, hash string) []byte {
+	cp := append([]byte{}, value...)
+	switch form {
+	case "exact":
+		return cp
+	case "trail00":
+		return append(cp, 0x00)
+	case "trail0000":
+		return append(cp, 0x00, 0x00)
+	case "trailFF":
+		return append(cp, 0xff)
+	case "trail32":
+		d := sha256.Sum256(value)
+		return append(cp, d[:]...)
+	case "trailSig":
+		_, second := signLog(key, hash, []byte("some other message"))
+		return append(cp, second...)
+	case "cut":
+		return cp[:len(cp)-1]
+	}
+	if scheme != "ecdsa" {
+		panic("harness: form " + form + " for scheme " + scheme)
+	}
+	// the DER forms: take the value apart into the two INTEGER elements
+	in := cryptobyte.String(value)
+	var body, r, s cryptobyte.String
+	if !in.ReadASN1(&body, cbasn1.SEQUENCE) || !in.Empty() || !body.ReadASN1Element(&r, cbasn1.INTEGER) || !body.ReadASN1Element(&s, cbasn1.INTEGER) || !body.Empty() {
+		panic("harness: own ECDSA value does not parse")
+	}
+	switch form {
+	case "inner": // a NULL after s INSIDE the SEQUENCE
+		return tlv(cbasn1.SEQUENCE, append(append(append([]byte{}, r...), s...), 0x05, 0x00))
+	case "padded": // r with a superfluous leading 00 octet (X.690 8.3.2)
+		var rc cryptobyte.String
+		rr := r
+		if !rr.ReadASN1(&rc, cbasn1.INTEGER) {
+			panic("harness: r")
+		}
+		// (a positive r starts with an octet below 80, or with the one 00 that is needed: one more is superfluous)
+		pr := tlv(cbasn1.INTEGER, append([]byte{0x00}, rc...))
+		return tlv(cbasn1.SEQUENCE, append(pr, s...))
+	case "longlen": // the SEQUENCE's length not in the minimum number of octets (X.690 10.1)
+		content := append(append([]byte{}, r...), s...)
+		return append(append([]byte{0x30}, nonMinimalLen(len(content))...), content...)
+	}
+	panic("harness: signature form " + form)
 }
